@@ -34,3 +34,10 @@ CHECKS = {
   technique='Coq proof (invariants over thread-level LTSs, refutation witnesses by vm_compute) + schedule-replay correspondence check + executable API acceptors',
   design_ref='DESIGN.md section 7 C04/C05/C11/C07'),
 }
+
+# per-property registry fragments (checks/registry_<id>.py, each defining CHECKS and optionally NOT_APPLICABLE)
+import glob as _glob, importlib as _importlib, os as _os
+for _f in sorted(_glob.glob(_os.path.join(_os.path.dirname(_os.path.abspath(__file__)), 'registry_*.py'))):
+    _m = _importlib.import_module('checks.' + _os.path.basename(_f)[:-3])
+    CHECKS.update(getattr(_m, 'CHECKS', {}))
+    NOT_APPLICABLE.update(getattr(_m, 'NOT_APPLICABLE', {}))
